@@ -15,7 +15,8 @@ EXPLANATION = (
     "marker fails; (R4) after the effective input is computed every path evaluation in the Choice handler reads it; (R5) the "
     "StringMatches translation neutralises every fnmatch metacharacter except '*'; (R6) And/Or/Not are all/any/not over the "
     "recursive evaluation, operator calls are inside try/except Exception -> no match, rules are scanned in list order with "
-    "first match, then Default, else States.NoChoiceMatched. Not decided: truth tables over all values.")
+    "first match, then Default, else States.NoChoiceMatched. Not decided: truth tables over all values."
+    ' (R7) the type tests agree on a Variable that does not exist: every asl_choice_Is* operator other than IsPresent consults path_match_failed as IsBoolean does; reported on the current tree as D70 (four keys).')
 RULE_TEXT = "obligation = one operator / handler / site; non-trivial = distinct (rule, site)"
 
 REL = {"Equals": "eq", "LessThan": "lt", "GreaterThan": "gt", "LessThanEquals": "le", "GreaterThanEquals": "ge"}
@@ -307,6 +308,8 @@ def r6(chk, ctx, handlers):
 
 
 def run(chk, ctx):
+    from . import round5
+    round5.type_tests_agree_on_missing_variable(chk, ctx)
     from . import generic
     generic.definite_assignment(chk, ctx, ['state_engine'], "C14.DA")   # no local is read before it is bound (UnboundLocalError = an arbitrary exception)
     from . import c08
